@@ -1746,9 +1746,17 @@ func (n *RegexNode) reduceRep() *RegexNode {
 			valid := false
 			if t == NtLoop {
 				switch child.T {
-				case NtOneloop, NtOneloopatomic, NtNotoneloop,
-					NtNotoneloopatomic, NtSetloop, NtSetloopatomic:
+				case NtOneloop, NtNotoneloop, NtSetloop:
 					valid = true
+				case NtOneloopatomic, NtNotoneloopatomic, NtSetloopatomic:
+					// An atomic child loop can't be multiplied in general: each iteration of the outer loop
+					// matches the child atomically, but the outer loop may still give iterations back, and an
+					// iteration can't take fewer characters to leave enough for the next one.
+					// e.g. (?>a+)?ab must match "ab", and (?>a{1,2}){2} must not match "aa".
+					// It can when the first mandatory iteration takes everything, e.g. (?>a*)+ => (?>a*),
+					// or when both counts are fixed, e.g. (?>a{2}){3} => (?>a{6}).
+					valid = (child.M == 0 && child.N == math.MaxInt32 && u.M >= 1) ||
+						(child.M == child.N && u.M == u.N)
 				}
 			} else {
 				switch child.T {
